@@ -55,13 +55,14 @@ class Gen:
     def __init__(self, rng, profile="py", tag_calls=False, max_ops=12, nphases=None, allow_end=True,
                  weird_names=True, persistent_arrays=True, multi_result=True, persist_tag="",
                  readonly_state=(), advance_time=True, phase_plan=None, components=None, funcs=None,
-                 ifexpr=True, call_bias=0.0, counters=None, extra_locals=(), containers=False, lookups=False, shadow_funcs=False, local_time_bias=0.25):
+                 ifexpr=True, call_bias=0.0, counters=None, extra_locals=(), containers=False, lookups=False, shadow_funcs=False, local_time_bias=0.25, stencil_bias=0.3):
         self.shadow_funcs = shadow_funcs
         self.containers = containers
         self.lookups = lookups
         self.ifexpr = ifexpr
         self.call_bias = call_bias
         self.local_time_bias = local_time_bias
+        self.stencil_bias = stencil_bias
         self.counters = list(counters or COUNTERS)
         self.extra_locals = list(extra_locals)
         self.persist_tag = persist_tag
@@ -844,7 +845,7 @@ class Gen:
                 new = self.op_scalar_loop(sc, persist)
             elif r < 0.635:
                 q = rng.random()
-                new = (self.op_stencil_pair(sc, persist) if q < 0.3 else
+                new = (self.op_stencil_pair(sc, persist) if q < self.stencil_bias else
                        self.op_flag_block(sc, persist) if q < 0.55 else
                        self.op_reject_idiom(sc, persist, phase_names, cur) if (q < 0.67 and self.allow_end) else
                        self.op_extreme_array(sc, persist) if q < 0.76 else self.op_computed_index(sc))
